@@ -410,6 +410,29 @@ def r8_transfer_wiring(ctx):
                   f"{helper} is not selected by `len(above_thresh) > 0 and simultaneous is {pol}`")
 
 
+def r9_round_local(ctx):
+    """The step's decisions depend only on the round being computed (C09.R3 restricted to STV): otherwise
+    the profile reported for a round does not correspond to the tallies recorded for it."""
+    sub = type(ctx)(ctx.prog, ctx.prop, ctx.tier)
+    c09.r3_replay_independent(sub)
+    n = 0
+    for o in sub.obs:
+        if ".stv.STV." in o.function:
+            o.rule = "C02.R9"
+            ctx.obs.append(o)
+            n += 1
+    if n == 0:
+        ctx.vanished("STV._run_step replay obligations")
+    # and removals by a single name go through remove_cand's str wrapping (shared with C12.R1)
+    from rules import c12
+    sub = type(ctx)(ctx.prog, ctx.prop, ctx.tier)
+    c12.r1_filter_polarity(sub)
+    for o in sub.obs:
+        if "wrapped into a list" in o.construct or "kept iff not in" in o.construct:
+            o.rule = "C02.R9"
+            ctx.obs.append(o)
+
+
 RULES = [
     ("C02.R1", r1_quota, 4, "droop/hare formulas over the constructor's total weight; unknown quota raises"),
     ("C02.R2", r2_single_writer, 3, "the threshold has a single writer (STV.__init__) and is returned unchanged once set"),
@@ -418,6 +441,7 @@ RULES = [
     ("C02.R5", r5_default_election, 3, "default election iff nobody above threshold and candidates == unfilled seats"),
     ("C02.R6", r6_elimination, 4, "elimination takes the low end; first_place tiebreak on the initial profile; last of resolution"),
     ("C02.R7", r7_recorded_tallies, 1, "recorded tallies = first_place_votes of the returned profile, ranked high to low"),
+    ("C02.R9", r9_round_local, 3, "step decisions use only the round being computed; eliminated/elected candidates are removed by exact name"),
     ("C02.R8", r8_transfer_wiring, 6, "transfer calls wired to one candidate; one-by-one mode; mode switch"),
 ]
 
@@ -433,7 +457,7 @@ FAULTS = [
                                       "        tiebreaks: dict[frozenset[str], tuple[frozenset[str], ...]] = {}\n        self.threshold = self.get_threshold(profile.total_ballot_wt)\n")], "C02.R2"),
     ("> for >= in comprehension", [(STV_PY, "if score >= self.threshold", "if score > self.threshold")], "C02.R3"),
     ("> for >= in loop", [(STV_PY, "if prev_state.scores[c] >= self.threshold:", "if prev_state.scores[c] > self.threshold:")], "C02.R3"),
-    ("factor over threshold", [(TR_PY, "transfer_value = (fpv - threshold) / fpv", "transfer_value = (fpv - threshold) / threshold")], "C02.R4"),
+    ("factor over threshold", [(TR_PY, "transfer_value = (fpv - threshold) / Fraction(fpv)", "transfer_value = (fpv - threshold) / Fraction(threshold)")], "C02.R4"),
     ("factor not applied", [(TR_PY, "transfered_weight = ballot.weight * Fraction(transfer_value)", "transfered_weight = ballot.weight")], "C02.R4"),
     ("factor applied to everybody", [(TR_PY, "            else:\n                transfered_weight = ballot.weight\n", "            else:\n                transfered_weight = ballot.weight * Fraction(transfer_value)\n")], "C02.R4"),
     ("seqRCV reweights", [(STV_PY, "lambda winner, fpv, ballots, threshold: remove_cand(\n                    winner, tuple(ballots)\n                )",
@@ -447,14 +471,15 @@ FAULTS = [
     ("scores of the old profile", [(STV_PY, "                scores = self.score_function(new_profile)\n\n            remaining = score_dict_to_ranking(scores)\n\n            new_state = ElectionState(\n                round_number=prev_state.round_number + 1,\n                remaining=remaining,\n                elected=elected,\n                eliminated=eliminated,",
                                     "                scores = self.score_function(profile)\n\n            remaining = score_dict_to_ranking(scores)\n\n            new_state = ElectionState(\n                round_number=prev_state.round_number + 1,\n                remaining=remaining,\n                elected=elected,\n                eliminated=eliminated,")], "C02.R7"),
     ("transfer other candidate's tally", [(STV_PY, "                    candidate,\n                    prev_state.scores[candidate],\n                    ballots_by_fpv[candidate],", "                    candidate,\n                    prev_state.scores[c],\n                    ballots_by_fpv[candidate],")], "C02.R8"),
+    ("default election counts final winners", [(STV_PY, "[c for s in self.get_elected(prev_state.round_number) for c in s]", "[c for s in self.get_elected() for c in s]")], "C02.R9"),
     ("single step elects two", [(STV_PY, "ranking_by_fpv, m=1, profile=profile, tiebreak=self.tiebreak", "ranking_by_fpv, m=2, profile=profile, tiebreak=self.tiebreak")], None),
 ]
 BENIGN = [
     ("droop as 1 + floor", [(STV_PY, "return int(total_ballot_wt / (self.m + 1) + 1)", "return 1 + int(total_ballot_wt / (self.m + 1))")]),
     ("threshold comparison swapped operands", [(STV_PY, "if score >= self.threshold", "if self.threshold <= score")]),
     ("not < for >=", [(STV_PY, "if prev_state.scores[c] >= self.threshold:", "if not prev_state.scores[c] < self.threshold:")]),
-    ("factor as 1 - t/f", [(TR_PY, "transfer_value = (fpv - threshold) / fpv", "transfer_value = 1 - threshold / fpv")]),
+    ("factor as 1 - t/f", [(TR_PY, "transfer_value = (fpv - threshold) / Fraction(fpv)", "transfer_value = 1 - threshold / Fraction(fpv)")]),
     ("factor inlined", [(TR_PY, "transfered_weight = ballot.weight * Fraction(transfer_value)", "transfered_weight = ballot.weight * Fraction((fpv - threshold) / fpv)")]),
-    ("default election rearranged", [(STV_PY, "elif len(profile.candidates) == self.m - len(\n            [c for s in self.get_elected() for c in s]\n        ):",
-                                      "elif len(profile.candidates) + len(\n            [c for s in self.get_elected() for c in s]\n        ) == self.m:")]),
+    ("default election rearranged", [(STV_PY, "elif len(profile.candidates) == self.m - len(\n            [c for s in self.get_elected(prev_state.round_number) for c in s]\n        ):",
+                                      "elif len(profile.candidates) + len(\n            [c for s in self.get_elected(prev_state.round_number) for c in s]\n        ) == self.m:")]),
 ]
